@@ -269,3 +269,23 @@ Section Model.
         end
     end.
 End Model.
+
+(* ---------- history: Load before the fix "a config file holding JSON null no
+   longer makes Put panic".  json.Decode of the document `null` left
+   Config.content a nil map: reads and deletes on it are fine, the assignment
+   cfg.content["auths"] = ... in saveFile panics.  [None] = nil map. ---------- *)
+Inductive jdoc := JNull | JObject (d : fdoc).
+
+Definition load_content_prefix (j : jdoc) : option fdoc :=
+  match j with JNull => None | JObject d => Some d end.
+
+(* saveFile's map writes; None = run-time panic "assignment to entry in nil map" *)
+Definition save_content_prefix (content : option fdoc) (cache : list (str * entry)) : option fdoc :=
+  match content with
+  | None => None
+  | Some d => Some (set configFieldAuths (TAuths cache) (del configFieldCredentialsStore d))
+  end.
+
+(* after the fix a nil map is replaced by an empty one *)
+Definition load_content (j : jdoc) : option fdoc :=
+  match j with JNull => Some [] | JObject d => Some d end.
